@@ -380,6 +380,21 @@ func genC09(g *Gen) {
 		e.setDec("x", x)
 		g.emit(e)
 	})
+	// decimals that ARE float64 / float32 values, written with a coefficient between 2^53 and 2^64 (integers of 54..63 bits
+	// that are multiples of the float spacing, with 0..2 redundant trailing zeros): "exact when representable" on the path
+	// where the coefficient fits one word but not the float's 53 bits
+	g.gridRun(60, 0.06, func(i int) {
+		bits := 54 + i%10
+		v := new(big.Int).Lsh(new(big.Int).SetUint64(1<<52|g.r.Uint64()>>12), uint(bits-53))
+		z := (i / 10) % 3
+		c := new(big.Int).Mul(v, pow10(z))
+		if c.BitLen() > 64 {
+			c, z = v, 0
+		}
+		x := mk(i >= 30, c, -z+[]int{0, 0, 1, 5}[g.r.Intn(4)]*(1-min(z, 1)))
+		g.un("Float64", x)
+		g.un("Float32", x)
+	})
 	// NaN of both signs and of several payloads through both float constructors
 	g.gridRun(4, 0.01, func(i int) {
 		bits := []uint64{0x7ff8000000000000, 0xfff8000000000001, 0x7ff0000000000001, 0xffffffffffffffff}[i]
